@@ -12,18 +12,20 @@ From PP Require Import Model.C08 Proofs.C08.
    (reads return the stored value or KeyError, an additive write to an empty slot is
    rejected with ValueError, nothing else raises). *)
 Theorem C08_window :
-  forall (V : Type) (vadd : V -> V -> V) (d : nat) (ops : list (@op V)),
+  forall (V : Type) (vadd : V -> V -> V) (d : nat) (ops : list (@op V)) (s0 : @st V),
     1 <= d -> Forall (disciplined V d) ops ->
+    (s0 = None \/ s0 = Some []) ->   (* fresh data dictionary, or the empty per-name
+                                        dictionary that create_variables pre-creates *)
     let h := hrun V vadd [] ops in
     (forall i, i < d ->
-       match fst (run vadd None ops) with
+       match fst (run vadd s0 ops) with
        | None => h = []
        | Some dct => lookup dct i = nth_error h i
        end) /\
     (forall i, d <= i ->
-       match fst (run vadd None ops) with
+       match fst (run vadd s0 ops) with
        | None => True | Some dct => lookup dct i = None end) /\
-    snd (run vadd None ops) = houts V vadd d [] ops.
+    snd (run vadd s0 ops) = houts V vadd d [] ops.
 Proof. exact window_theorem. Qed.
 Print Assumptions C08_window.
 
